@@ -42,6 +42,7 @@ extern int __lsan_do_recoverable_leak_check(void);
  * caller terminates the process after logging the End event.
  */
 static int cf_leak_probed;		/* did the last cf_leak_check really probe? */
+static int cf_leak_force;		/* probe now whatever the period says */
 static int cf_leak_period = 1;
 
 static int cf_leak_check(void)
@@ -61,7 +62,7 @@ static int cf_leak_check(void)
 	cf_leak_period = period;
     }
     cf_leak_probed = 0;
-    if (period == 0 || (period > 1 && ++count % period != 0))
+    if (period == 0 || (period > 1 && ++count % period != 0 && !cf_leak_force))
 	return 0;
     cf_leak_probed = 1;
 
